@@ -216,11 +216,15 @@ func runC18(c *Ctx) {
 		n := 0
 		core.EachInstr(fn, func(in ssa.Instruction) {
 			call, ok := in.(*ssa.Call)
-			if !ok || call.Call.StaticCallee() == nil || core.FnName(call.Call.StaticCallee()) != pair[1] || len(call.Call.Args) < 2 {
+			if !ok || call.Call.StaticCallee() == nil || core.FnName(call.Call.StaticCallee()) != pair[1] {
+				return
+			}
+			ci := core.ParamIndex(call.Call.StaticCallee(), "ctx") // the context, wherever it stands (method or plain function)
+			if ci < 0 || ci >= len(call.Call.Args) {
 				return
 			}
 			n++
-			arg := core.StripConv(call.Call.Args[1])
+			arg := core.StripConv(call.Call.Args[ci])
 			par, isParam := arg.(*ssa.Parameter)
 			ok2 := isParam && len(fn.Params) > 1 && par == fn.Params[1]
 			R.Check(ok2, "C18.ctx", "logger|"+core.FuncName(fn)+"|forwarded-context", P.InstrPos(call),
@@ -291,7 +295,7 @@ func runC18(c *Ctx) {
 	}
 
 	// ---- C18.oneline
-	isStdLog := func(in ssa.Instruction) bool {
+	isStdLogDirect := func(in ssa.Instruction) bool {
 		call, ok := in.(*ssa.Call)
 		if !ok {
 			return false
@@ -301,6 +305,54 @@ func runC18(c *Ctx) {
 			return false
 		}
 		return strings.HasPrefix(core.FullName(f), "(*log.Logger).")
+	}
+	exactlyOnce := func(fn *ssa.Function, pred func(ssa.Instruction) bool) bool {
+		min, max, ok := core.PathCounts(fn, pred)
+		if !ok {
+			return false
+		}
+		for _, r := range core.Returns(fn) {
+			if min[r] != 1 || max[r] != 1 {
+				return false
+			}
+		}
+		return len(core.Returns(fn)) > 0
+	}
+	// one logger call, possibly handed as a closure to a module helper that runs it exactly once (colorize(func(){..}))
+	isStdLog := func(in ssa.Instruction) bool {
+		if isStdLogDirect(in) {
+			return true
+		}
+		call, ok := in.(*ssa.Call)
+		if !ok {
+			return false
+		}
+		h := call.Call.StaticCallee()
+		if h == nil || !core.InModule(h) || len(h.Blocks) == 0 {
+			return false
+		}
+		for i, a := range call.Call.Args {
+			mc, isClosure := core.StripConv(a).(*ssa.MakeClosure)
+			if !isClosure || i >= len(h.Params) {
+				continue
+			}
+			body := mc.Fn.(*ssa.Function)
+			par := h.Params[i]
+			runsOnce := exactlyOnce(h, func(x ssa.Instruction) bool {
+				c2, ok := x.(*ssa.Call)
+				return ok && c2.Call.Value == ssa.Value(par)
+			})
+			noOther := true
+			core.EachInstr(h, func(x ssa.Instruction) {
+				if isStdLogDirect(x) {
+					noOther = false
+				}
+			})
+			if runsOnce && noOther && exactlyOnce(body, isStdLogDirect) {
+				return true
+			}
+		}
+		return false
 	}
 	for _, name := range []string{"(*loggerPlus).doPrintln", "(*loggerPlus).doPrintf"} {
 		fn := P.Func("logger", name)
